@@ -643,14 +643,69 @@ impl<W: Write> Serializer for QNameSerializer<W> {
 //@extract text::TextSerializer | src/se/text.rs :: struct TextSerializer | serves=C13 features=serialize
  pub struct TextSerializer<W: Write>(pub SimpleTypeSerializer<W>);
 //@end
-/// TextSerializer's methods are not under contract (model-level implementation: every method unspecified)
-impl<W: Write> Serializer for TextSerializer<W> {
-    type Ok = W;
+/// the serializer of a `$text` field: a wrapper around SimpleTypeSerializer (verified, like it, at W := &mut W0). C13: what it
+/// writes for a string is what the wrapped serializer writes -- the string escaped for its position
+impl<'w, W: Write> Serializer for TextSerializer<&'w mut W> {
+    type Ok = &'w mut W;
     type Error = SeError;
-    type SerializeSeq = ();
+    type SerializeSeq = SimpleSeq<&'w mut W>;
     type SerializeStruct = ();
     type SerializeMap = ();
     open spec fn ok(&self) -> bool { true }
+//@extract text::TextSerializer::serialize_str | src/se/text.rs :: impl<W: Write> Serializer for TextSerializer<W> :: invoke write_primitive :: fn serialize_str | serves=C13 features=serialize
+        fn serialize_str(self, value: &str) -> (r: Result<Self::Ok, Self::Error>)
+            // C13: the text of a `$text` field is written ONLY through the escaping table of its position
+            ensures r matches Ok(w) ==> (*w).out() == (*old(self.0.writer)).out() + spec_escape(value.spec_bytes(), p_list(self.0.target, self.0.level))
+                && *final(w) == *final(self.0.writer),
+        {
+            self.0.serialize_str(value)
+        }
+//@end
+//@extract text::TextSerializer::serialize_none | src/se/text.rs :: impl<W: Write> Serializer for TextSerializer<W> :: fn serialize_none | serves=C13 features=serialize
+    fn serialize_none(self) -> Result<Self::Ok, Self::Error> {
+        self.0.serialize_none()
+    }
+//@end
+//@extract text::TextSerializer::serialize_unit | src/se/text.rs :: impl<W: Write> Serializer for TextSerializer<W> :: fn serialize_unit | serves=C13 features=serialize
+    fn serialize_unit(self) -> (r: Result<Self::Ok, Self::Error>)
+        ensures r matches Ok(w) && (*w).out() == (*old(self.0.writer)).out() && *final(w) == *final(self.0.writer)
+    {
+        self.0.serialize_unit()
+    }
+//@end
+//@extract text::TextSerializer::serialize_unit_struct | src/se/text.rs :: impl<W: Write> Serializer for TextSerializer<W> :: fn serialize_unit_struct | serves=C13 features=serialize
+    fn serialize_unit_struct(self, name: &'static str) -> (r: Result<Self::Ok, Self::Error>)
+        ensures r matches Ok(w) && (*w).out() == (*old(self.0.writer)).out() && *final(w) == *final(self.0.writer)
+    {
+        self.0.serialize_unit_struct(name)
+    }
+//@end
+//@extract text::TextSerializer::serialize_unit_variant | src/se/text.rs :: impl<W: Write> Serializer for TextSerializer<W> :: fn serialize_unit_variant | serves=C13 features=serialize
+    fn serialize_unit_variant(
+        self,
+        name: &'static str,
+        variant_index: u32,
+        variant: &'static str,
+    ) -> (r: Result<Self::Ok, Self::Error>)
+        // the `$text` variant of an enum writes nothing
+        ensures variant@ == "$text"@ ==> (r matches Ok(w) && (*w).out() == (*old(self.0.writer)).out() && *final(w) == *final(self.0.writer))
+    {
+        if variant == TEXT_KEY {
+            Ok(self.0.writer)
+        } else {
+            self.0.serialize_unit_variant(name, variant_index, variant)
+        }
+    }
+//@end
+//@extract text::TextSerializer::serialize_seq | src/se/text.rs :: impl<W: Write> Serializer for TextSerializer<W> :: fn serialize_seq | serves=C13 features=serialize
+    fn serialize_seq(self, len: Option<usize>) -> (r: Result<Self::SerializeSeq, Self::Error>)
+        // C13: the items of a list in a `$text` field are escaped for the SAME position and level
+        ensures r matches Ok(q) && q.target == self.0.target && q.level == self.0.level && q.is_empty
+            && (*q.writer).out() == (*old(self.0.writer)).out() && *final(q.writer) == *final(self.0.writer),
+    {
+        self.0.serialize_seq(len)
+    }
+//@end
 }
 //@extract element::Tuple | src/se/element.rs :: enum Tuple | serves=C19 features=serialize
  pub enum Tuple<'w, 'k, W: Write> {
